@@ -909,7 +909,7 @@ pub fn run(ctx: &Ctx) -> i32 {
     KEYWORD_PREFIX_EXCLUDED.store(ctx.open("ident.keyword_prefix"), std::sync::atomic::Ordering::Relaxed);
     replay_known(ctx, &stats, &mut report, &replay);
     replay_regressions(ctx, &stats, &mut report, &replay);
-    if let Some(f) = explore(ctx, "roundtrip", qast, Explore { cases: ctx.tier.pick(24_000, 400_000), max_shrink_iters: 2000, lanes: ctx.lanes }, &stats, run_roundtrip) {
+    if let Some(f) = explore(ctx, "roundtrip", qast, Explore { cases: ctx.tier.pick(60_000, 400_000), max_shrink_iters: 2000, lanes: ctx.lanes }, &stats, run_roundtrip) {
         report.violations.push(f);
     }
     let corp = corpus();
@@ -932,7 +932,7 @@ pub fn run(ctx: &Ctx) -> i32 {
     }
     if report.violations.is_empty() {
         let corp2 = corp.clone();
-        if let Some(f) = explore(ctx, "fuzzed", move || fuzzed_strategy(corp2.clone()), Explore { cases: ctx.tier.pick(16_000, 300_000), max_shrink_iters: 1500, lanes: ctx.lanes }, &stats, run_fuzzed) {
+        if let Some(f) = explore(ctx, "fuzzed", move || fuzzed_strategy(corp2.clone()), Explore { cases: ctx.tier.pick(40_000, 300_000), max_shrink_iters: 1500, lanes: ctx.lanes }, &stats, run_fuzzed) {
             report.violations.push(f);
         }
     }
